@@ -628,6 +628,13 @@ keep-alive, buffer sizes, `setsockopt`). In particular no `SO_LINGER`: closing s
 bytes already accepted by `Write`, it does not reset the connection and discard them. -/
 theorem no_socket_option_calls : Gen.C16Deadlines.socketOptionCalls = [] := by decide
 
+/-- **system_close_kills_child**: `System.Close` ends the spawned ssh with `Process.Kill` — the one
+signal a program cannot ignore — and with nothing else (no `Signal`, no `Wait` that could block):
+the child's end of the pty closes whatever the child does, which is what releases a read blocked
+on the master (the descriptor itself is in blocking mode, see C16-F17). -/
+theorem system_close_kills_child :
+    Gen.C16Deadlines.processCalls = [("system.go", "Close", "Kill")] := by decide
+
 /-! ## The wrapper's slice and error handling -/
 
 /-- `b[0:k]` of the buffer the reader filled is exactly what the reader delivered (no zero padding,
